@@ -18,20 +18,29 @@ EXTENDS QRat, TLC
 MZero(d) == TLCEval([r \in 1..d |-> [c \in 1..d |-> Q0]])
 MId(d) == TLCEval([r \in 1..d |-> [c \in 1..d |-> IF r = c THEN Q1 ELSE Q0]])
 MDim(M) == Len(M)
-MOfInt(M) == TLCEval([r \in 1..Len(M) |-> [c \in 1..Len(M) |-> QI(M[r][c])]])
-MOfJson(M) == TLCEval([r \in 1..Len(M) |-> [c \in 1..Len(M) |-> QOfJson(M[r][c])]])
-MAdd(A, B) == TLCEval([r \in 1..Len(A) |-> [c \in 1..Len(A) |-> QAdd(A[r][c], B[r][c])]])
-MNeg(A) == TLCEval([r \in 1..Len(A) |-> [c \in 1..Len(A) |-> QNeg(A[r][c])]])
+MOfInt(M_0) == Let1(M_0, LAMBDA M :
+ TLCEval([r \in 1..Len(M) |-> [c \in 1..Len(M) |-> QI(M[r][c])]]))
+MOfJson(M_0) == Let1(M_0, LAMBDA M :
+ TLCEval([r \in 1..Len(M) |-> [c \in 1..Len(M) |-> QOfJson(M[r][c])]]))
+MAdd(A_0, B_0) == Let2(A_0, B_0, LAMBDA A, B :
+ TLCEval([r \in 1..Len(A) |-> [c \in 1..Len(A) |-> QAdd(A[r][c], B[r][c])]]))
+MNeg(A_0) == Let1(A_0, LAMBDA A :
+ TLCEval([r \in 1..Len(A) |-> [c \in 1..Len(A) |-> QNeg(A[r][c])]]))
 MSub(A, B) == MAdd(A, MNeg(B))
-MScale(q, A) == TLCEval([r \in 1..Len(A) |-> [c \in 1..Len(A) |-> QMul(q, A[r][c])]])
+MScale(q_0, A_0) == Let2(q_0, A_0, LAMBDA q, A :
+ TLCEval([r \in 1..Len(A) |-> [c \in 1..Len(A) |-> QMul(q, A[r][c])]]))
 RECURSIVE MDot(_, _, _, _, _)
 MDot(A, B, r, c, k) == IF k = 0 THEN Q0 ELSE QAdd(QMul(A[r][k], B[k][c]), MDot(A, B, r, c, k - 1))
-MMul(A, B) == TLCEval([r \in 1..Len(A) |-> [c \in 1..Len(A) |-> MDot(A, B, r, c, Len(A))]])
-MIsZero(A) == \A r \in 1..Len(A) : \A c \in 1..Len(A) : A[r][c][1] = 0
-MEq(A, B) == \A r \in 1..Len(A) : \A c \in 1..Len(A) : A[r][c] = B[r][c]
+MMul(A_0, B_0) == Let2(A_0, B_0, LAMBDA A, B :
+ TLCEval([r \in 1..Len(A) |-> [c \in 1..Len(A) |-> MDot(A, B, r, c, Len(A))]]))
+MIsZero(A_0) == Let1(A_0, LAMBDA A :
+ \A r \in 1..Len(A) : \A c \in 1..Len(A) : A[r][c][1] = 0)
+MEq(A_0, B_0) == Let2(A_0, B_0, LAMBDA A, B :
+ \A r \in 1..Len(A) : \A c \in 1..Len(A) : A[r][c] = B[r][c])
 MScalar(d, q) == MScale(q, MId(d))
 RECURSIVE MPow(_, _)
-MPow(A, k) == IF k = 0 THEN MId(Len(A)) ELSE MMul(A, MPow(A, k - 1))
+MPow(A_0, k) == Let1(A_0, LAMBDA A :
+ IF k = 0 THEN MId(Len(A)) ELSE MMul(A, MPow(A, k - 1)))
 
 (* sum of a sequence of matrices (non-empty or with explicit dimension)        *)
 RECURSIVE MSumSeq(_, _)
@@ -41,27 +50,35 @@ MSumSeq(d, s) == IF s = <<>> THEN MZero(d) ELSE MAdd(Head(s), MSumSeq(d, Tail(s)
 SZero(d, N) == TLCEval([k \in 1..(N + 1) |-> MZero(d)])
 SOne(d, N) == TLCEval([k \in 1..(N + 1) |-> IF k = 1 THEN MId(d) ELSE MZero(d)])
 SOrder(S) == Len(S) - 1
-SAdd(S, T) == TLCEval([k \in 1..Len(S) |-> MAdd(S[k], T[k])])
-SScale(q, S) == TLCEval([k \in 1..Len(S) |-> MScale(q, S[k])])
+SAdd(S_0, T_0) == Let2(S_0, T_0, LAMBDA S, T :
+ TLCEval([k \in 1..Len(S) |-> MAdd(S[k], T[k])]))
+SScale(q_0, S_0) == Let2(q_0, S_0, LAMBDA q, S :
+ TLCEval([k \in 1..Len(S) |-> MScale(q, S[k])]))
 RECURSIVE SConv(_, _, _, _)
 SConv(S, T, n, k) ==    \* sum_{j=0..k} S_j T_{n-j}
   IF k < 0 THEN MZero(Len(S[1])) ELSE MAdd(MMul(S[k + 1], T[n - k + 1]), SConv(S, T, n, k - 1))
-SMul(S, T) == TLCEval([n \in 1..Len(S) |-> SConv(S, T, n - 1, n - 1)])
-SEq(S, T) == \A k \in 1..Len(S) : MEq(S[k], T[k])
+SMul(S_0, T_0) == Let2(S_0, T_0, LAMBDA S, T :
+ TLCEval([n \in 1..Len(S) |-> SConv(S, T, n - 1, n - 1)]))
+SEq(S_0, T_0) == Let2(S_0, T_0, LAMBDA S, T :
+ \A k \in 1..Len(S) : MEq(S[k], T[k]))
 (* keep a^0..a^n, zero beyond                                                   *)
-STrunc(S, n) == TLCEval([k \in 1..Len(S) |-> IF k - 1 <= n THEN S[k] ELSE MZero(Len(S[1]))])
+STrunc(S_0, n) == Let1(S_0, LAMBDA S :
+ TLCEval([k \in 1..Len(S) |-> IF k - 1 <= n THEN S[k] ELSE MZero(Len(S[1]))]))
 (* first index (power of a) at which two series differ, -1 if none             *)
-SFirstDiff(S, T) ==
+SFirstDiff(S_0, T_0) == Let2(S_0, T_0, LAMBDA S, T :
+
   IF SEq(S, T) THEN -1 ELSE (CHOOSE k \in 0..(Len(S) - 1) :
-        ~MEq(S[k + 1], T[k + 1]) /\ \A j \in 0..(k - 1) : MEq(S[j + 1], T[j + 1]))
+        ~MEq(S[k + 1], T[k + 1]) /\ \A j \in 0..(k - 1) : MEq(S[j + 1], T[j + 1])))
 RECURSIVE SPow(_, _)
-SPow(S, k) == IF k = 0 THEN SOne(Len(S[1]), Len(S) - 1) ELSE SMul(S, SPow(S, k - 1))
+SPow(S_0, k) == Let1(S_0, LAMBDA S :
+ IF k = 0 THEN SOne(Len(S[1]), Len(S) - 1) ELSE SMul(S, SPow(S, k - 1)))
 
 (* value of a series at a rational a: sum_k S_k a^k                            *)
 RECURSIVE SEvalFrom(_, _, _)
 SEvalFrom(S, a, k) ==   \* Horner from index k
   IF k = Len(S) THEN S[k] ELSE MAdd(S[k], MScale(a, SEvalFrom(S, a, k + 1)))
-SEval(S, a) == SEvalFrom(S, a, 1)
+SEval(S_0, a_0) == Let2(S_0, a_0, LAMBDA S, a :
+ SEvalFrom(S, a, 1))
 
 (* --------------------------- polynomials in (a, L) -------------------------- *)
 BZero(d, N) == TLCEval([i \in 1..(N + 1) |-> [j \in 1..(N + 1) |-> MZero(d)]])
@@ -70,8 +87,10 @@ BMono(d, N, i0, j0, M) ==
 BOne(d, N) == BMono(d, N, 0, 0, MId(d))
 BN(P) == Len(P) - 1
 BD(P) == Len(P[1][1])
-BAdd(P, R) == TLCEval([i \in 1..Len(P) |-> [j \in 1..Len(P) |-> MAdd(P[i][j], R[i][j])]])
-BScale(q, P) == TLCEval([i \in 1..Len(P) |-> [j \in 1..Len(P) |-> MScale(q, P[i][j])]])
+BAdd(P_0, R_0) == Let2(P_0, R_0, LAMBDA P, R :
+ TLCEval([i \in 1..Len(P) |-> [j \in 1..Len(P) |-> MAdd(P[i][j], R[i][j])]]))
+BScale(q_0, P_0) == Let2(q_0, P_0, LAMBDA q, P :
+ TLCEval([i \in 1..Len(P) |-> [j \in 1..Len(P) |-> MScale(q, P[i][j])]]))
 BNeg(P) == BScale(QI(-1), P)
 BSub(P, R) == BAdd(P, BNeg(R))
 RECURSIVE BConvJ(_, _, _, _, _, _)
@@ -82,51 +101,66 @@ RECURSIVE BConvI(_, _, _, _, _)
 BConvI(P, R, i, j, i1) ==
   IF i1 < 0 THEN MZero(BD(P))
   ELSE MAdd(BConvJ(P, R, i1, i - i1, j, j), BConvI(P, R, i, j, i1 - 1))
-BMul(P, R) == TLCEval([i \in 1..Len(P) |-> [j \in 1..Len(P) |-> BConvI(P, R, i - 1, j - 1, i - 1)]])
-BEq(P, R) == \A i \in 1..Len(P) : \A j \in 1..Len(P) : MEq(P[i][j], R[i][j])
+BMul(P_0, R_0) == Let2(P_0, R_0, LAMBDA P, R :
+ TLCEval([i \in 1..Len(P) |-> [j \in 1..Len(P) |-> BConvI(P, R, i - 1, j - 1, i - 1)]]))
+BEq(P_0, R_0) == Let2(P_0, R_0, LAMBDA P, R :
+ \A i \in 1..Len(P) : \A j \in 1..Len(P) : MEq(P[i][j], R[i][j]))
 (* d/dL and the integral from 0 to L                                            *)
-BDiffL(P) == TLCEval([i \in 1..Len(P) |-> [j \in 1..Len(P) |->
-                 IF j = Len(P) THEN MZero(BD(P)) ELSE MScale(QI(j), P[i][j + 1])]])
-BIntL(P) == TLCEval([i \in 1..Len(P) |-> [j \in 1..Len(P) |->
-                 IF j = 1 THEN MZero(BD(P)) ELSE MScale(QF(1, j - 1), P[i][j - 1])]])
-BDiffA(P) == TLCEval([i \in 1..Len(P) |-> [j \in 1..Len(P) |->
-                 IF i = Len(P) THEN MZero(BD(P)) ELSE MScale(QI(i), P[i + 1][j])]])
+BDiffL(P_0) == Let1(P_0, LAMBDA P :
+ TLCEval([i \in 1..Len(P) |-> [j \in 1..Len(P) |->
+                 IF j = Len(P) THEN MZero(BD(P)) ELSE MScale(QI(j), P[i][j + 1])]]))
+BIntL(P_0) == Let1(P_0, LAMBDA P :
+ TLCEval([i \in 1..Len(P) |-> [j \in 1..Len(P) |->
+                 IF j = 1 THEN MZero(BD(P)) ELSE MScale(QF(1, j - 1), P[i][j - 1])]]))
+BDiffA(P_0) == Let1(P_0, LAMBDA P :
+ TLCEval([i \in 1..Len(P) |-> [j \in 1..Len(P) |->
+                 IF i = Len(P) THEN MZero(BD(P)) ELSE MScale(QI(i), P[i + 1][j])]]))
 (* multiply by a^s (shift up, truncated)                                        *)
-BShiftA(P, s) == TLCEval([i \in 1..Len(P) |-> [j \in 1..Len(P) |->
-                 IF i - s >= 1 THEN P[i - s][j] ELSE MZero(BD(P))]])
+BShiftA(P_0, s) == Let1(P_0, LAMBDA P :
+ TLCEval([i \in 1..Len(P) |-> [j \in 1..Len(P) |->
+                 IF i - s >= 1 THEN P[i - s][j] ELSE MZero(BD(P))]]))
 RECURSIVE BPow(_, _)
-BPow(P, k) == IF k = 0 THEN BOne(BD(P), BN(P)) ELSE BMul(P, BPow(P, k - 1))
+BPow(P_0, k) == Let1(P_0, LAMBDA P :
+ IF k = 0 THEN BOne(BD(P), BN(P)) ELSE BMul(P, BPow(P, k - 1)))
 (* coefficient of a^i as a polynomial in L evaluated at rational l              *)
 RECURSIVE BRowEval(_, _, _, _)
-BRowEval(P, i, l, j) == IF j = Len(P) THEN P[i + 1][j] ELSE MAdd(P[i + 1][j], MScale(l, BRowEval(P, i, l, j + 1)))
-BEvalL(P, l) == TLCEval([i \in 1..Len(P) |-> BRowEval(P, i - 1, l, 1)])
+BRowEval(P_0, i, l_0, j) == Let2(P_0, l_0, LAMBDA P, l :
+ IF j = Len(P) THEN P[i + 1][j] ELSE MAdd(P[i + 1][j], MScale(l, BRowEval(P, i, l, j + 1))))
+BEvalL(P_0, l_0) == Let2(P_0, l_0, LAMBDA P, l :
+ TLCEval([i \in 1..Len(P) |-> BRowEval(P, i - 1, l, 1)]))
 (* substitute a scalar (1 x 1, commuting) polynomial G for a in the scalar P:    *)
 (* P(G) = sum_i sum_j P[i][j] L^j G^i                                            *)
 RECURSIVE BComposeFrom(_, _, _)
-BRowAsPoly(P, i) ==     \* sum_j P[i][j] L^j as a BiPoly of a-degree 0
-  TLCEval([i2 \in 1..Len(P) |-> [j \in 1..Len(P) |-> IF i2 = 1 THEN P[i + 1][j] ELSE MZero(BD(P))]])
-BComposeFrom(P, G, i) ==  \* Horner in G from a-degree i
+BRowAsPoly(P_0, i) == Let1(P_0, LAMBDA P :
+     \* sum_j P[i][j] L^j as a BiPoly of a-degree 0
+  TLCEval([i2 \in 1..Len(P) |-> [j \in 1..Len(P) |-> IF i2 = 1 THEN P[i + 1][j] ELSE MZero(BD(P))]]))
+BComposeFrom(P_0, G_0, i) == Let2(P_0, G_0, LAMBDA P, G :
+  \* Horner in G from a-degree i
   IF i = BN(P) THEN BRowAsPoly(P, i)
-  ELSE BAdd(BRowAsPoly(P, i), BMul(G, BComposeFrom(P, G, i + 1)))
+  ELSE BAdd(BRowAsPoly(P, i), BMul(G, BComposeFrom(P, G, i + 1))))
 BCompose(P, G) == BComposeFrom(P, G, 0)
 (* keep a-degree <= n                                                           *)
-BTruncA(P, n) == TLCEval([i \in 1..Len(P) |-> [j \in 1..Len(P) |->
-                 IF i - 1 <= n THEN P[i][j] ELSE MZero(BD(P))]])
-BFirstDiff(P, R) ==     \* <<i, j>> of a differing coefficient (lowest a-degree), <<-1,-1>> if none
+BTruncA(P_0, n) == Let1(P_0, LAMBDA P :
+ TLCEval([i \in 1..Len(P) |-> [j \in 1..Len(P) |->
+                 IF i - 1 <= n THEN P[i][j] ELSE MZero(BD(P))]]))
+BFirstDiff(P_0, R_0) == Let2(P_0, R_0, LAMBDA P, R :
+     \* <<i, j>> of a differing coefficient (lowest a-degree), <<-1,-1>> if none
   IF BEq(P, R) THEN <<-1, -1>>
   ELSE CHOOSE p \in (0..BN(P)) \X (0..BN(P)) :
         /\ ~MEq(P[p[1] + 1][p[2] + 1], R[p[1] + 1][p[2] + 1])
         /\ \A q \in (0..BN(P)) \X (0..BN(P)) :
-              (q[1] < p[1] \/ (q[1] = p[1] /\ q[2] < p[2])) => MEq(P[q[1] + 1][q[2] + 1], R[q[1] + 1][q[2] + 1])
+              (q[1] < p[1] \/ (q[1] = p[1] /\ q[2] < p[2])) => MEq(P[q[1] + 1][q[2] + 1], R[q[1] + 1][q[2] + 1]))
 
 (* ============================ C22: matching ================================= *)
 (* Forward matching operator of order n built from the OME list A = <<A1,A2,A3>> *)
-Forward(A, n) ==
+Forward(A_0, n) == Let1(A_0, LAMBDA A :
+
   LET d == Len(A[1]) IN
-  TLCEval([k \in 1..4 |-> IF k = 1 THEN MId(d) ELSE IF k - 1 <= n THEN A[k - 1] ELSE MZero(d)])
+  TLCEval([k \in 1..4 |-> IF k = 1 THEN MId(d) ELSE IF k - 1 <= n THEN A[k - 1] ELSE MZero(d)]))
 
 (* Expanded backward operator as written in build_ome (transcription)           *)
-ExpandedTranscribed(A, n) ==
+ExpandedTranscribed(A_0, n) == Let1(A_0, LAMBDA A :
+
   LET d == Len(A[1])
       b1 == MNeg(A[1])
       b2 == MAdd(MNeg(A[2]), MMul(A[1], A[1]))
@@ -135,30 +169,35 @@ ExpandedTranscribed(A, n) ==
   IN  TLCEval(<< MId(d),
          IF n >= 1 THEN b1 ELSE MZero(d),
          IF n >= 2 THEN b2 ELSE MZero(d),
-         IF n >= 3 THEN b3 ELSE MZero(d) >>)
+         IF n >= 3 THEN b3 ELSE MZero(d) >>))
 
 (* Inverse derived in the specification: F B = 1 order by order                  *)
 (*   B_0 = 1,  B_k = - sum_{j=1..k} F_j B_(k-j)                                   *)
 RECURSIVE InvCoeff(_, _)
 RECURSIVE InvSum(_, _, _)
-InvSum(F, k, j) == IF j = 0 THEN MZero(Len(F[1])) ELSE MAdd(MMul(F[j + 1], InvCoeff(F, k - j)), InvSum(F, k, j - 1))
+InvSum(F_0, k, j) == Let1(F_0, LAMBDA F :
+ IF j = 0 THEN MZero(Len(F[1])) ELSE MAdd(MMul(F[j + 1], InvCoeff(F, k - j)), InvSum(F, k, j - 1)))
 InvCoeff(F, k) == IF k = 0 THEN MId(Len(F[1])) ELSE MNeg(InvSum(F, k, k))
-DerivedInverse(F, n) ==
-  TLCEval([k \in 1..Len(F) |-> IF k - 1 <= n THEN InvCoeff(F, k - 1) ELSE MZero(Len(F[1]))])
+DerivedInverse(F_0, n) == Let1(F_0, LAMBDA F :
+
+  TLCEval([k \in 1..Len(F) |-> IF k - 1 <= n THEN InvCoeff(F, k - 1) ELSE MZero(Len(F[1]))]))
 
 (* the property: Trunc_n(F B) = 1 and Trunc_n(B F) = 1                            *)
-C22_TruncatedInverse(F, B, n) ==
+C22_TruncatedInverse(F_0, B_0, n) == Let2(F_0, B_0, LAMBDA F, B :
+
   LET one == SOne(Len(F[1]), Len(F) - 1) IN
   /\ SEq(STrunc(SMul(F, B), n), one)
-  /\ SEq(STrunc(SMul(B, F), n), one)
-C22_FirstBadPower(F, B, n) ==
+  /\ SEq(STrunc(SMul(B, F), n), one))
+C22_FirstBadPower(F_0, B_0, n) == Let2(F_0, B_0, LAMBDA F, B :
+
   LET one == SOne(Len(F[1]), Len(F) - 1)
       l == SFirstDiff(STrunc(SMul(F, B), n), one)
       r == SFirstDiff(STrunc(SMul(B, F), n), one)
-  IN  IF l >= 0 /\ (r < 0 \/ l <= r) THEN l ELSE r
+  IN  IF l >= 0 /\ (r < 0 \/ l <= r) THEN l ELSE r)
 (* exact inverse at a numeric coupling a                                        *)
-C22_ExactInverse(F, a, X) ==
-  LET M == SEval(F, a) IN MEq(MMul(X, M), MId(Len(X))) /\ MEq(MMul(M, X), MId(Len(X)))
+C22_ExactInverse(F_0, a_0, X_0) == Let3(F_0, a_0, X_0, LAMBDA F, a, X :
+
+  LET M == SEval(F, a) IN MEq(MMul(X, M), MId(Len(X))) /\ MEq(MMul(M, X), MId(Len(X))))
 
 (* ===================== C22: decoupling series (scalars) ===================== *)
 (* A decoupling table c[n][l], n = 1..3, l = 0..n (JSON: 4 x 4 array of pairs,    *)
@@ -166,17 +205,19 @@ C22_ExactInverse(F, a, X) ==
 S1(q) == <<<<q>>>>                     \* 1 x 1 matrix
 TableAt(T, n, l) == QOfJson(T[n + 1][l + 1])
 (* as BiPoly over (a, L), truncated at a^N                                       *)
-CouplingPoly(T, N, nmax) ==
+CouplingPoly(T_0, N, nmax) == Let1(T_0, LAMBDA T :
+
   TLCEval([i \in 1..(N + 1) |-> [j \in 1..(N + 1) |->
      IF i = 2 /\ j = 1 THEN S1(Q1)
      ELSE IF i >= 3 /\ i - 2 <= nmax /\ i - 2 <= 3 /\ j - 1 <= i - 2 THEN S1(TableAt(T, i - 2, j - 1))
-     ELSE S1(Q0)]])
+     ELSE S1(Q0)]]))
 (* multiplicative factor 1 + sum_n a^n sum_l c[n][l] L^l (masses)                 *)
-FactorPoly(T, N, nmax) ==
+FactorPoly(T_0, N, nmax) == Let1(T_0, LAMBDA T :
+
   TLCEval([i \in 1..(N + 1) |-> [j \in 1..(N + 1) |->
      IF i = 1 /\ j = 1 THEN S1(Q1)
      ELSE IF i >= 2 /\ i - 1 <= nmax /\ i - 1 <= 3 /\ j - 1 <= i - 1 THEN S1(TableAt(T, i - 1, j - 1))
-     ELSE S1(Q0)]])
+     ELSE S1(Q0)]]))
 IdentityA(N) == BMono(1, N, 1, 0, S1(Q1))
 
 (* down(up(a)) = a and up(down(a)) = a through a^(nmax+1)                         *)
@@ -199,7 +240,8 @@ MassFirstBad(Tup, Tdown, nmax) ==
   BFirstDiff(BTruncA(BMul(FactorPoly(Tup, nmax, nmax), FactorPoly(Tdown, nmax, nmax)), nmax), BOne(1, nmax))
 
 (* transcription of eko.couplings.invert_matching_coeffs (entries as rationals)   *)
-InvertTranscribed(T) ==
+InvertTranscribed(T_0) == Let1(T_0, LAMBDA T :
+
   LET c(n, l) == TableAt(T, n, l)
       z == Q0
       r1 == << z, QNeg(c(1, 1)), z, z >>
@@ -209,5 +251,5 @@ InvertTranscribed(T) ==
                QSub(QScale(5, QMul(c(1, 1), c(2, 0))), c(3, 1)),
                QSub(QScale(5, QMul(c(1, 1), c(2, 1))), c(3, 2)),
                QSumSeq(<< QScale(-5, QPow(c(1, 1), 3)), QScale(5, QMul(c(1, 1), c(2, 2))), QNeg(c(3, 3)) >>) >>
-  IN  << <<z, z, z, z>>, r1, r2, r3 >>
+  IN  << <<z, z, z, z>>, r1, r2, r3 >>)
 =============================================================================
